@@ -3,7 +3,7 @@
    take_cols positions source.  key_eq is Python == on cells with NaN equal to NaN. *)
 From Coq Require Import ZArith NArith List Bool String Permutation Sorting.Sorted.
 From DM Require Import Base.PyVal Spec.Nf Spec.Table Spec.SplitGroup Gen.KSplitGroup Model.SplitGroup
-  Proofs.SplitGroupFacts Proofs.SplitGroupRefine.
+  Proofs.SplitGroupFacts Proofs.SplitGroupRefine Proofs.SplitGroupGroup.
 Import ListNotations.
 
 (* the parts of split(col) are pairwise disjoint and together hold every row exactly once *)
@@ -185,6 +185,39 @@ Theorem C14_group_key_faithful :
 Proof. exact group_key_faithful. Qed.
 Print Assumptions C14_group_key_faithful.
 
+(* ---------- ops.group: the code (L1 model on the regenerated kernels: the dict numbering of the key tuples with NaN
+   replaced by the text nan, the hashed IntColumn, its unique values, one selection by row id per key through
+   _compare_value / _selectrowid / _getrowidkey, the by-cell of the selection's first row, the series deepened and
+   filled group by group) computes the L0 group: one row per distinct by-combination in first-occurrence order, the
+   by-values of the group's first row kept, every other column gathered in source order and padded with NaN to the
+   longest group -- for EVERY source satisfying the boolean premise wf_group_b (distinct row ids in any order and
+   with any gaps, columns as long as the id list and at least one column unless there are no rows, distinct column
+   names, no by-cell equal to the literal text nan), any number of by-columns (none included), any by-name
+   (an unknown name: both sides answer None). *)
+Theorem C14_model_group_refines :
+  forall (d : mdm) (bynames : list string),
+    wf_group_b d bynames = true -> m_group d bynames = group (m_cols d) bynames.
+Proof. exact m_group_refines. Qed.
+Print Assumptions C14_model_group_refines.
+
+(* the pieces, each for all inputs: (1) the key numbering through the dict gives every row the position of its
+   combination among the distinct combinations (first occurrence first) *)
+Theorem C14_model_group_numbering :
+  forall rawkeys : list (list val),
+    Forall (Forall not_nan_text) rawkeys ->
+    number_keys (map (map m_keycell) rawkeys) []
+    = map (fun k => Z.of_nat (idx keys_eq k (distinct keys_eq rawkeys))) rawkeys.
+Proof. exact model_hashed. Qed.
+Print Assumptions C14_model_group_numbering.
+
+(* (2) the series grown and filled group by group (kernels k_group_grow / newdepth / fill) ends as every group's
+   values padded with NaN to the longest group *)
+Theorem C14_model_group_series :
+  forall vals : list (list fl),
+    series_run (O, repeat [] (List.length vals)) O vals = (max_len vals, map (pad_row (max_len vals)) vals).
+Proof. exact series_run_spec. Qed.
+Print Assumptions C14_model_group_series.
+
 (* non-vacuity: keys whose concatenations / sums coincide stay apart; NaN keys form one group *)
 Open Scope string_scope.
 Example C14_example_text_keys :
@@ -220,3 +253,22 @@ Proof.
   - intros n k cs [H|[H|[]]]; inversion H; subst; split; auto; simpl; intros c Hc;
       repeat (destruct Hc as [<-|Hc]; [reflexivity|]); contradiction.
 Qed.
+
+(* the premise of the group refinement is satisfiable: reordered, non-contiguous row ids (smallest first, largest
+   last, interior permuted), a FloatColumn key with two NaNs, an Int and a Mixed payload; and the model's answer *)
+Definition ex_gdm : mdm :=
+  {| m_rid := [2; 7; 4; 9]%N;
+     m_cols := [("k", KFloat, [VFlt FNan; VFlt (FFin false 1 0); VFlt FNan; VFlt (FFin false 1 0)]);
+                ("uid", KInt, [VInt 10; VInt 11; VInt 12; VInt 13]);
+                ("m", KMixed, [VInt 1; VInt 2; VInt 3; VInt 4])] |}.
+Example C14_example_group_wf : wf_group_b ex_gdm ["k"] = true.
+Proof. vm_compute. reflexivity. Qed.
+Example C14_example_group_wf_no_by : wf_group_b ex_gdm [] = true.
+Proof. vm_compute. reflexivity. Qed.
+Example C14_example_group_model :
+  m_group ex_gdm ["k"] =
+    Some {| g_n := 2;
+            g_by := [("k", KFloat, [VFlt FNan; VFlt (FFin false 1 0)])];
+            g_series := [("uid", 2%nat, [[FFin false 5 1; FFin false 3 2]; [FFin false 11 0; FFin false 13 0]]);
+                         ("m", 2%nat, [[FFin false 1 0; FFin false 3 0]; [FFin false 1 1; FFin false 1 2]])] |}.
+Proof. vm_compute. reflexivity. Qed.
